@@ -268,10 +268,8 @@ def multiplicity_is_a_count(prog: Program, rep, RID: str):
             rep.ok(RID, key, f"`{val}` is at least 1", f.loc(c))
             continue
         guards = []
-        from rules.common import split_or_return_guards
-        for st in split_or_return_guards(f.node).body:
-            if getattr(st, "lineno", 0) >= c.lineno:
-                break
+        from rules.common import split_or_return_guards, statements_before
+        for st in split_or_return_guards(ast.Module(body=statements_before(f.node.body, c), type_ignores=[])).body:
             if isinstance(st, ast.If) and st.body and isinstance(st.body[-1], ast.Return) and not st.orelse:
                 guards.append(norm(st.test))
         want = {f"{val} < 1", f"not {val} >= 1", f"1 > {val}", f"not ({val} >= 1)"}
